@@ -22,8 +22,8 @@ import vcheck as V
 MUTANTS = ["nogroup", "nologterm", "noencterm", "noindex", "nodecadv"]
 PROP_INVS = "Lossless StepFaithful InSync CtxAgree ErrorAfterDamage"
 
-ACTIONS = ["Encode", "EncodeFull", "EncodeHB", "Decode", "Truncate", "Corrupt"]
-_re_cov = re.compile(r"^<(\w+) line \d+, col \d+ to line \d+, col \d+ of module \w+>: (\d+):\d+", re.M)
+ACTIONS = ["Encode", "EncodeFull", "EncodeHB", "Decode", "DoTruncate", "DoCorrupt"]
+_re_cov = re.compile(r"^<(\w+) line \d+, col \d+ to line \d+, col \d+ of module \w+>: \d+:(\d+)", re.M)
 _re_str = re.compile(r'"([^"]*)"')
 
 
@@ -46,8 +46,9 @@ def classify(seg, what):
 
 def model_runs(ctx, gdot):
     """(A): exhaustive runs of the design.  Returns (walk result, list of summaries, mutants refuted)."""
-    jobs = [("walk", "MC_ZCodec_walk.cfg", 4, ["-dump", "dot,actionlabels", gdot]),
-            ("proof", "MC_ZCodec.cfg", 4, None)]
+    # the walk instance is on the critical path (its graph feeds the driver): more workers
+    jobs = [("walk", "MC_ZCodec_walk.cfg", 6, ["-dump", "dot,actionlabels", gdot]),
+            ("proof", "MC_ZCodec.cfg", 3, None)]
     if not ctx.quick():
         # deep: pipe depth 2; hist: no VIEW, bounded histories (cross-check of the VIEW), run
         # with -coverage so that no property-relevant action is vacuous
@@ -76,10 +77,19 @@ def drive(ctx, zr, name, args):
     return name, None, None, args
 
 
+_re_mism = re.compile(r'<<"MISMATCH", (\d+), (<<.*?>>)>>')
+
+
 def validate(ctx, name, f):
     consumed, mism, res = V.validate_seq_trace(ctx, "ZCodecTrace", "ZCodecTrace.cfg", f, tag="tv-" + name, timeout=1500)
     if not consumed and not mism and (res.timed_out or res.error is None):
         consumed, mism, res = V.validate_seq_trace(ctx, "ZCodecTrace", "ZCodecTrace.cfg", f, tag="tv-" + name, timeout=2400)
+    # TLC wraps long printed tuples over several lines: read the MISMATCH tuples from the whole
+    # output (whitespace-normalised) instead of line by line, so that none is lost
+    flat = re.sub(r"\s*\n\s*", " ", res.out)
+    mism = [(int(a), b) for a, b in _re_mism.findall(flat)]
+    if flat.count('"MISMATCH"') != len(mism):
+        raise V.Inconclusive("could not parse every MISMATCH line of %s" % name)
     return consumed, mism, res
 
 
@@ -137,13 +147,13 @@ def run(ctx):
         plan = [("random-a", ["-random", "60", "-len", "30", "-seed", str(seed * 10 + 1)]),
                 ("random-b", ["-random", "60", "-len", "30", "-big", "0.2", "-seed", str(seed * 10 + 2)]),
                 ("msg", ["-msg", "50", "-len", "20", "-seed", str(seed * 10 + 3)]),
-                ("explore-a", ["-explore", "9", "-huge", "3", "-seed", str(seed * 10 + 4)]),
+                ("explore-a", ["-explore", "9", "-seed", str(seed * 10 + 4)]),
                 ("explore-b", ["-explore", "9", "-seed", str(seed * 10 + 5)])]
         walk_args = ["-dot", gdot, "-limit", "18000", "-seed", str(seed)]
     else:
         plan = [("random-%d" % i, ["-random", "250", "-len", "40", "-big", "0.12", "-seed", str(seed * 100 + i)]) for i in range(4)]
         plan += [("msg-%d" % i, ["-msg", "200", "-len", "25", "-seed", str(seed * 100 + 10 + i)]) for i in range(2)]
-        plan += [("explore-%d" % i, ["-explore", "24", "-huge", "4", "-seed", str(seed * 100 + 20 + i)]) for i in range(4)]
+        plan += [("explore-%d" % i, ["-explore", "24", "-seed", str(seed * 100 + 20 + i)]) for i in range(4)]
         plan += [("explore-full-%d" % i, ["-explore", "8", "-full", "-payload", "-seed", str(seed * 100 + 30 + i)]) for i in range(2)]
         walk_args = ["-dot", gdot, "-seed", str(seed)]
 
@@ -165,6 +175,14 @@ def run(ctx):
     for name, cfg, r in models:
         if name.startswith("mut-"):
             refuted[name[4:]] = bool(r.violated)
+            continue
+        if not r.ok and not r.timed_out and not r.violated and not r.post_false and not r.error \
+                and "Finished in" not in r.out and "Error:" not in r.out:
+            # TLC ended without a verdict twice (killed: memory pressure on the shared machine):
+            # environmental, skipped and counted, never a verdict
+            ctx.notes.append("%s: TLC was killed before it finished (%d states); counted as not run" % (cfg, r.distinct))
+            ctx.skipped += 1
+            runs.append(dict(cfg=cfg, **r.summary()))
             continue
         V.require_model_ok(ctx, r, cfg)
         runs.append(dict(cfg=cfg, **r.summary()))
@@ -255,8 +273,8 @@ def run(ctx):
                 continue
             seen.add(key)
             bad = sg[-1]
-            txt = "%s stream, %s line %d: real codec %s; ZCodec says %s" % (
-                sig["stream"], name, line, json.dumps(bad, sort_keys=True)[:700], what)
+            txt = "%s stream, %s line %d: ZCodec says %s; real codec: %s" % (
+                sig["stream"], name, line, what, json.dumps(bad, sort_keys=True)[:700])
             segf = os.path.join(ctx.sub("fail"), "%s-%d.ndjson" % (name, line))
             keep = [e for e in sg if e.get("ev") in ("reset", "enc", "dec")] if bad.get("ev") in ("trunc", "corrupt", "late") else sg
             V.write_ndjson(segf, keep + ([bad] if keep[-1] is not bad else []))
@@ -312,7 +330,11 @@ def run(ctx):
         "the stream formats carry no checksum: a damaged byte that keeps the framing intact cannot be noticed "
         "by any decoder of this format (recorded as known finding C16-stream-no-integrity-check); the "
         "property's quantifier (all truncation points) is checked strictly, corruption is exploration",
-        "corruptions that make a length prefix huge (32 MB .. 2^50) are executed in a child process with an "
-        "8 GB address-space limit, a few per run; the rest are counted (corruptions_with_huge_length)",
+        "single-byte corruptions run in child processes (16 GB address-space limit).  The decoders refuse "
+        "lengths above readBytesLimit (512 MB; entry count above readBytesLimit/8) - every such case is executed "
+        "and must be an error (a panic/crash is a VIOLATION); a damaged value BELOW the limit is allocated before "
+        "the read fails, which is bounded and intended: cases whose implied allocation exceeds 64 MB while the "
+        "value is within the limit are not executed but counted (driver_runs[].skipped_large_alloc)",
+        "every third recorded stream is decoded through a reader that returns short reads (1 B .. 1 MB per Read)",
         "single reader and single writer per stream (as in streamWriter.run / streamReader.decodeLoop)",
     ])
